@@ -120,6 +120,7 @@ def gen_cases(rng, n_base, per_base):
         k = len(desc["tracks"])
         sites = [(f, idx) for f in range(k) for idx in range(len(desc["tracks"][f]["stream"]["items"]))]
         rng.shuffle(sites)
+        sites.sort(key=lambda s_: s_[1] + 2.5 * rng.random())      # early events first: they are reached within the horizon
         i_base = plan.add(("base", b), desc)
         chosen = sites[:per_base] if per_base else sites
         for (f, idx) in chosen:
@@ -147,7 +148,7 @@ def gen_cases(rng, n_base, per_base):
                                   "none": i_none, "desc": d3})
         # a device fault
         for _ in range(2 if per_base else 4):
-            j = rng.randint(0, 14)
+            j = rng.choice([0, 1, 2, 3, 4, 5, 6, 8, 11])
             for ignore in (True, False):
                 i_run = plan.add(("dev", b, j, ignore), desc, mode_ignore=ignore, dev_fail=j)
                 cases.append({"kind": "device", "site": "device", "b": b, "j": j, "ignore": ignore, "run": i_run, "base": i_base, "desc": desc,
